@@ -91,9 +91,13 @@ def check_C18(ctx):
         if not is_crash(o) and fields(o).get('ok') == '1':
             c['prog'] = vmprops.Prog(fields(o))
             good.append(c)
-    for _ in range(ctx.n(60, 600)):
+    for it in range(ctx.n(60, 600)):
         k = r.randint(2, 4)
         inst = [r.choice(good) for _ in range(k)]
+        share = it % 2 == 1
+        if share:
+            # several machines of the same program, built from one Program object (what a front end does)
+            inst = [inst[0]] * k
         hists = [vmprops.random_history(r, c['prog'], r.randint(4, 25)) for c in inst]
         # random interleaving
         pos = [0] * k
@@ -106,7 +110,7 @@ def check_C18(ctx):
                                                                          c['prog'].text.split('maps=')[1].split(' ')[0], i,
                                                                          c['prog'].text.split('pb=')[1].split(' ')[0], i,
                                                                          c['prog'].text.split('li=')[1].split(' ')[0]) for i, c in enumerate(inst))
-        req = 'VMS n=%d %s ops=%s' % (k, fieldsreq, ','.join('%d:%s' % (i, op) for i, op in ops))
+        req = 'VMS n=%d share=%d %s ops=%s' % (k, int(share), fieldsreq, ','.join('%d:%s' % (i, op) for i, op in ops))
         multi = impl(ctx, [req], timeout=60)[0]
         single = impl(ctx, ['VM %s ops=%s cap=20000' % (c['prog'].text, ','.join(h)) for c, h in zip(inst, hists)], timeout=60)
         ctx.cov['evaluations'] += 1
